@@ -54,10 +54,15 @@ def leaf_replay(pid, L, res):
         "tc_shared": tb(z3.And([a == b for a, b in zip(L.I("null_tc"), L.tc)])),
         "ua_is_to": tb(csxlib.eq4(L.I("ua_account"), L.to)),
     }
+    # a dummy statement stays a dummy: its (unenforced) nullifier/header/root values keep the model's values
+    if tb(L.spec_dummy):
+        for k in ("nullifier", "block_hash", "tree_root_eq_root"):
+            flags[k] = False
+        flags["model_is_dummy"] = True
     cuts, _why = leaf.find_cuts(L)
     cut16 = cuts[16] if cuts else []
     if cuts:
-        flags["root_eq_cut16"] = tb(csxlib.eq4(L.root, [sx.terms[c].as_int() for c in cut16]))
+        flags["root_eq_cut16"] = tb(csxlib.eq4(L.root, [sx.terms[c].as_int() for c in cut16])) and not flags.get("model_is_dummy", False)
     # adversarial pass: additionally pin every hash-independent wire the model chose (hint wires included)
     free = csxlib.model_all_classes(sx, m)
     assigns = [
